@@ -35,6 +35,7 @@ type raceJob struct {
 	Seed       int64          `json:"seed"`
 	Transform  int            `json:"transform"`
 	TransformE int            `json:"transform_e"`
+	SeqFirst   bool           `json:"seq_first"`
 }
 
 type raceReal struct {
